@@ -434,8 +434,8 @@ func genSend(g *vlib.Rng, name string, op sendOpts) *Case {
 	}
 	c.UseAll = tri(g, op.useAll, 1, 5)
 	c.Rfc = tri(g, op.rfc, 1, 4)
-	if c.Rfc && c.W.Minsig {
-		c.W.Minsig = false // minsig + rfc6979 re-signs the same deterministic signature for ever (observation, see report)
+	if c.Rfc && c.W.Minsig && op.rfc < 0 && !g.Chance(1, 4) {
+		c.W.Minsig = false // keep most cases out of the refused combination minsig + rfc6979
 	}
 	c.Apply = tri(g, op.apply, 4, 5)
 	c.Txfn = op.txfn
@@ -507,6 +507,26 @@ func mangle(g *vlib.Rng, c *Case) {
 }
 
 // ---------------------------------------------------------------- raw and multisig cases
+// edge-biased 32-bit values for sequence / lock time / version of externally built transactions
+func edge32(g *vlib.Rng) uint32 {
+	switch g.Intn(8) {
+	case 0:
+		return 0
+	case 1:
+		return 1
+	case 2:
+		return 0xffffffff
+	case 3:
+		return 0xfffffffe
+	case 4:
+		return 0xfffffffd
+	case 5:
+		return uint32(g.Pick(499999999, 500000000, 0x80000000, 0x7fffffff))
+	default:
+		return uint32(g.U64())
+	}
+}
+
 func genRaw(g *vlib.Rng, name string, w *WCfg) *Case {
 	c := &Case{Name: name, Kind: "raw", Valid: true, Apply: true}
 	if w != nil {
@@ -522,7 +542,10 @@ func genRaw(g *vlib.Rng, name string, w *WCfg) *Case {
 	genBalance(g, c, pubs, genPlans(g, pubs, 2+g.Intn(6)))
 	tx := new(btc.Tx)
 	tx.Version = uint32(g.Pick(1, 2, 2, 3))
-	tx.Lock_time = uint32(g.U64() % 800000)
+	if g.Chance(1, 4) {
+		tx.Version = edge32(g)
+	}
+	tx.Lock_time = edge32(g)
 	perm := g.Intn(len(c.Unspent))
 	nin := 1 + g.Intn(len(c.Unspent))
 	if nin > 4 {
@@ -532,7 +555,7 @@ func genRaw(g *vlib.Rng, name string, w *WCfg) *Case {
 	var wits [][][]byte
 	for i := 0; i < nin; i++ {
 		u := c.Unspent[(perm+i)%len(c.Unspent)]
-		tin := &btc.TxIn{Sequence: uint32(g.U64())}
+		tin := &btc.TxIn{Sequence: edge32(g)}
 		copy(tin.Input.Hash[:], txidBytes(u.Txid))
 		tin.Input.Vout = u.Vout
 		sc, _ := hex.DecodeString(u.Script)
@@ -567,7 +590,7 @@ func genRaw(g *vlib.Rng, name string, w *WCfg) *Case {
 	}
 	c.RawTx = hex.EncodeToString(raw)
 	c.Rfc = g.Chance(1, 4)
-	if c.Rfc {
+	if c.Rfc && !g.Chance(1, 4) {
 		c.W.Minsig = false
 	}
 	return c
@@ -613,9 +636,9 @@ func genMs(g *vlib.Rng, name string, w *WCfg) *Case {
 	genBalance(g, c, pubs, plans)
 	tx := new(btc.Tx)
 	tx.Version = 2
-	tx.Lock_time = uint32(g.U64() % 800000)
+	tx.Lock_time = edge32(g)
 	for _, u := range c.Unspent {
-		tin := &btc.TxIn{Sequence: uint32(g.U64())}
+		tin := &btc.TxIn{Sequence: edge32(g)}
 		copy(tin.Input.Hash[:], txidBytes(u.Txid))
 		tin.Input.Vout = u.Vout
 		tx.TxIn = append(tx.TxIn, tin)
@@ -716,6 +739,7 @@ func corpus() []*Case {
 	wm := w
 	wm.Minsig = true
 	add("minsig", func(o *sendOpts) { o.w = &wm; o.useAll = 1; o.mode = 3 })
+	add("minsig-rfc6979", func(o *sendOpts) { o.w = &wm; o.useAll = 1; o.mode = 3; o.rfc = 1 }) // hung before fix 513217bb
 	// -f with the first amount equal to the fee (pays 0) and below the fee
 	{
 		op := base()
